@@ -177,6 +177,7 @@ func runC16(c *eng.Ctx, tier string) {
 		})
 	}
 
+	noForget(c, "R-C16-2")
 	// the literal passed to Do
 	mc, _ := eng.Origin(do.Call.Args[2]).(*ssa.MakeClosure)
 	if mc == nil {
